@@ -916,3 +916,8 @@ mod test {
         assert_eq!(removed_changes, protocol_set_of(""));
     }
 }
+
+#[cfg(kani)]
+pub(crate) mod verif {
+    include!(concat!(env!("LIBP2P_VERIF"), "/hooks/swarm_handler.rs"));
+}
